@@ -1,6 +1,7 @@
 PROP = dict(level="model_checking", parts=[
     cxx("hist", "C13_hist", ninja=TOOLS, shards=(12, 12)),
     py("density", "C13_density.py", ninja=CSG + ["csg_density"], shards=(8, 12)),
+    py("boltzmann", "C13_boltzmann.py", ninja=CSG + ["csg_boltzmann"], shards=(8, 12)),
 ])
 TEXT = dict(engine="bsx", design_ref="DESIGN.md §3 C13",
    technique="explicit-state BFS over operation histories of the real HistogramNew vs reference model; exhaustive small-scope enumeration for the legacy Histogram",
